@@ -57,6 +57,164 @@ func controllingTypes(fn *ssa.Function, b *ssa.BasicBlock) []string {
 	return out
 }
 
+// boolCombiners finds, in fn and its closures, the short-circuit combinations of a boolean with a
+// constant edge (x && y lowers to phi[false, y]; x || y to phi[true, y]) and maps each to the
+// expression node type under which it is selected: the type case that creates the closure holding
+// it, the type case that encloses it, or the value of a flag assigned under the type cases.
+func boolCombiners(fn *ssa.Function) (map[string]string, map[*ssa.Phi]bool) {
+	ops := map[string]string{}
+	sites := map[*ssa.Phi]bool{}
+	isNode := func(t string) bool { return t == "*AndExpression" || t == "*OrExpression" }
+	other := map[string]string{"*AndExpression": "*OrExpression", "*OrExpression": "*AndExpression"}
+	kindOf := func(ph *ssa.Phi) string {
+		if b, ok := ph.Type().Underlying().(*types.Basic); !ok || b.Kind() != types.Bool || len(ph.Edges) != 2 {
+			return ""
+		}
+		kind, nonConst := "", 0
+		for _, e := range ph.Edges {
+			if k, ok := e.(*ssa.Const); ok && k.Value != nil {
+				switch k.Value.ExactString() {
+				case "false":
+					kind = "&&"
+				case "true":
+					kind = "||"
+				}
+			} else {
+				nonConst++
+			}
+		}
+		if nonConst != 1 {
+			return ""
+		}
+		return kind
+	}
+	// the types selecting block b of fn: enclosing type cases, or a dominating test of a flag / type assertion
+	var selecting func(b *ssa.BasicBlock) []string
+	selecting = func(b *ssa.BasicBlock) []string {
+		var out []string
+		for _, t := range controllingTypes(fn, b) {
+			if isNode(t) {
+				out = append(out, t)
+			}
+		}
+		if len(out) > 0 {
+			return out
+		}
+		for d := b; d != nil; d = d.Idom() {
+			idom := d.Idom()
+			if idom == nil || len(d.Preds) != 1 || d.Preds[0] != idom {
+				continue
+			}
+			ifi, ok := idom.Instrs[len(idom.Instrs)-1].(*ssa.If)
+			if !ok {
+				continue
+			}
+			onTrue := idom.Succs[0] == d
+			switch c := ifi.Cond.(type) {
+			case *ssa.Phi: // a flag assigned constants under the type cases
+				var hit, miss []string
+				unknown := 0
+				for i, e := range c.Edges {
+					k, ok := e.(*ssa.Const)
+					if !ok || k.Value == nil {
+						return nil
+					}
+					var ts []string
+					for _, t := range controllingTypes(fn, c.Block().Preds[i]) {
+						if isNode(t) {
+							ts = append(ts, t)
+						}
+					}
+					if len(ts) == 0 {
+						unknown++
+					}
+					if (k.Value.ExactString() == "true") == onTrue {
+						hit = append(hit, ts...)
+						if len(ts) == 0 {
+							hit = append(hit, "?")
+						}
+					} else {
+						miss = append(miss, ts...)
+					}
+				}
+				// a default value of the flag stands for the node type no case names
+				if unknown == 1 && len(hit)+len(miss) == 1+len(c.Edges)-1 {
+					for i, t := range hit {
+						if t == "?" && len(miss) == 1 {
+							hit[i] = other[miss[0]]
+						}
+					}
+				}
+				var res []string
+				for _, t := range hit {
+					if isNode(t) {
+						res = append(res, t)
+					}
+				}
+				return res
+			case *ssa.Extract: // v, ok := expr.(*AndExpression) tested directly
+				if ta, ok := c.Tuple.(*ssa.TypeAssert); ok && c.Index == 1 {
+					t := typeName(ta.AssertedType)
+					if isNode(t) {
+						if onTrue {
+							return []string{t}
+						}
+						return []string{other[t]}
+					}
+				}
+			}
+		}
+		return nil
+	}
+	for _, f := range append([]*ssa.Function{fn}, fn.AnonFuncs...) {
+		core.Instrs(f, func(in ssa.Instruction) {
+			ph, ok := in.(*ssa.Phi)
+			if !ok {
+				return
+			}
+			kind := kindOf(ph)
+			if kind == "" {
+				return
+			}
+			if f == fn {
+				inLoop := false
+				for _, l := range core.Loops(fn) {
+					if l.Body[ph.Block()] {
+						inLoop = true
+					}
+				}
+				if !inLoop {
+					return
+				}
+				sites[ph] = true
+				for _, t := range selecting(ph.Block()) {
+					ops[t] = kind
+				}
+				return
+			}
+			// in a closure: the combination must be stored (to the captured result)
+			stored := false
+			for _, ref := range *ph.Referrers() {
+				if _, ok := ref.(*ssa.Store); ok {
+					stored = true
+				}
+			}
+			if !stored {
+				return
+			}
+			sites[ph] = true
+			core.Instrs(fn, func(in ssa.Instruction) {
+				if mc, ok := in.(*ssa.MakeClosure); ok && mc.Fn == ssa.Value(f) {
+					for _, t := range selecting(mc.Block()) {
+						ops[t] = kind
+					}
+				}
+			})
+		})
+	}
+	return ops, sites
+}
+
 func typeName(t types.Type) string {
 	star := ""
 	if p, ok := t.(*types.Pointer); ok {
@@ -124,39 +282,9 @@ func runC15(p *core.Prog, r *core.Report) {
 		})
 		r.Check(bmOps["*AndExpression"] == "And", "C15.R1", "bitmap/AND", "an AND node intersects the children's bitmaps (Bitmap.And)", "combiner is "+bmOps["*AndExpression"], p.Pos(bm.Pos()))
 		r.Check(bmOps["*OrExpression"] == "Or", "C15.R1", "bitmap/OR", "an OR node unites the children's bitmaps (Bitmap.Or)", "combiner is "+bmOps["*OrExpression"], p.Pos(bm.Pos()))
-		// key combiners: closures storing result = result && x  /  result || x
-		kyOps := map[string]string{}
-		for _, cl := range ky.AnonFuncs {
-			kind := ""
-			core.Instrs(cl, func(in ssa.Instruction) {
-				st, ok := in.(*ssa.Store)
-				if !ok {
-					return
-				}
-				ph, ok := st.Val.(*ssa.Phi)
-				if !ok {
-					return
-				}
-				for _, e := range ph.Edges {
-					if k, ok := e.(*ssa.Const); ok && k.Value != nil {
-						switch k.Value.ExactString() {
-						case "false":
-							kind = "&&"
-						case "true":
-							kind = "||"
-						}
-					}
-				}
-			})
-			// where is the closure created?
-			core.Instrs(ky, func(in ssa.Instruction) {
-				if mc, ok := in.(*ssa.MakeClosure); ok && mc.Fn == ssa.Value(cl) {
-					for _, t := range controllingTypes(ky, mc.Block()) {
-						kyOps[t] = kind
-					}
-				}
-			})
-		}
+		// key combiners: result = result && x  /  result || x, selected by the node type — through closures
+		// created under the type cases, directly under the type cases, or through a flag set under them
+		kyOps, kySites := boolCombiners(ky)
 		r.Check(kyOps["*AndExpression"] == "&&", "C15.R1", "keys/AND", "an AND node is the conjunction of the children's truth values", "combiner is "+kyOps["*AndExpression"], p.Pos(ky.Pos()))
 		r.Check(kyOps["*OrExpression"] == "||", "C15.R1", "keys/OR", "an OR node is the disjunction of the children's truth values", "combiner is "+kyOps["*OrExpression"], p.Pos(ky.Pos()))
 		// every child is combined: the loop over children[1:] applies op to apply(child)
@@ -173,6 +301,12 @@ func runC15(p *core.Prog, r *core.Report) {
 							if _, isPhi := c.Call.Value.(*ssa.Phi); isPhi {
 								hasOp = true
 							}
+							if cl := core.CommonCallee(c.Common()); cl != nil && cl.Pkg() != nil && strings.Contains(cl.Pkg().Path(), "roaring") && (cl.Name() == "And" || cl.Name() == "Or") {
+								hasOp = true
+							}
+						}
+						if ph, ok := in.(*ssa.Phi); ok && f == ky && kySites[ph] {
+							hasOp = true
 						}
 					}
 				}
@@ -358,45 +492,48 @@ func runC15(p *core.Prog, r *core.Report) {
 		item := p.Named(pkgPBOut, "Item")
 		bn := core.FieldOf(item, "BlockNum")
 		ok := false
-		core.Instrs(fn, func(in ssa.Instruction) {
-			c, isC := in.(*ssa.Call)
-			if !isC {
-				return
-			}
-			cl := core.CommonCallee(c.Common())
-			if cl == nil || cl.Name() != "Add" || cl.Pkg() == nil || !strings.Contains(cl.Pkg().Path(), "roaring64") {
-				return
-			}
-			// receiver = indexes[key] with key ranging over the item's extracted keys; value = item.BlockNum
-			lk, isLk := c.Call.Args[0].(*ssa.Lookup)
-			f, base := core.LoadedField(c.Call.Args[1])
-			if !isLk || f != bn {
-				return
-			}
-			keySrc := core.Trace(lk.Index, 0)
-			payloadSrc := false
-			for fl := range keySrc.Fields {
-				if fl.Name() == "Keys" {
-					payloadSrc = true
-				}
-			}
-			// the keys were decoded from the same item's payload
-			okItem := false
-			core.Instrs(fn, func(x ssa.Instruction) {
-				cc, isCC := x.(*ssa.Call)
-				if !isCC {
+		// (in EndOfStream or in the helper of its family that builds the bitmaps of one file)
+		for _, fn := range core.Family(fn, 1) {
+			core.Instrs(fn, func(in ssa.Instruction) {
+				c, isC := in.(*ssa.Call)
+				if !isC {
 					return
 				}
-				if u := core.CommonCallee(cc.Common()); u != nil && u.Name() == "Unmarshal" {
-					if pf, pb := core.LoadedField(cc.Call.Args[0]); pf != nil && pf.Name() == "Payload" && pb == base {
-						okItem = true
+				cl := core.CommonCallee(c.Common())
+				if cl == nil || cl.Name() != "Add" || cl.Pkg() == nil || !strings.Contains(cl.Pkg().Path(), "roaring64") {
+					return
+				}
+				// receiver = indexes[key] with key ranging over the item's extracted keys; value = item.BlockNum
+				lk, isLk := c.Call.Args[0].(*ssa.Lookup)
+				f, base := core.LoadedField(c.Call.Args[1])
+				if !isLk || f != bn {
+					return
+				}
+				keySrc := core.Trace(lk.Index, 0)
+				payloadSrc := false
+				for fl := range keySrc.Fields {
+					if fl.Name() == "Keys" {
+						payloadSrc = true
 					}
 				}
+				// the keys were decoded from the same item's payload
+				okItem := false
+				core.Instrs(fn, func(x ssa.Instruction) {
+					cc, isCC := x.(*ssa.Call)
+					if !isCC {
+						return
+					}
+					if u := core.CommonCallee(cc.Common()); u != nil && u.Name() == "Unmarshal" {
+						if pf, pb := core.LoadedField(cc.Call.Args[0]); pf != nil && pf.Name() == "Payload" && pb == base {
+							okItem = true
+						}
+					}
+				})
+				if payloadSrc && okItem {
+					ok = true
+				}
 			})
-			if payloadSrc && okItem {
-				ok = true
-			}
-		})
+		}
 		r.Check(ok, "C15.R6", "EndOfStream/index", "for each item of the index module's output, every key decoded from that item's payload gets that item's block number added to its bitmap", "Add(item.BlockNum) on indexes[key] with keys of the same item not found", p.Pos(fn.Pos()))
 	})
 	r.Guard("C15.R4", "skipFromIndex/absent-output", "no output of the index module = no key", func() { checkSkipFromIndexAbsentOutput(p, r, "C15.R4") })
@@ -489,6 +626,28 @@ func runC15(p *core.Prog, r *core.Report) {
 					}
 					for _, e := range x.Edges {
 						walk(e)
+					}
+				case *ssa.Extract:
+					walk(x.Tuple)
+				case *ssa.Call:
+					// a helper called for this module that returns only maps it creates itself
+					callee := core.StaticFn(x.Common())
+					if callee == nil || callee.Pkg != fn.Pkg || callee.Blocks == nil || !outer.Body[x.Block()] {
+						ok = false
+						return
+					}
+					for _, ri := range core.FindInstrs(callee, func(in ssa.Instruction) bool { _, isRet := in.(*ssa.Return); return isRet }) {
+						for _, rv := range core.ReturnValues(ri.(*ssa.Return)) {
+							if _, isMap := rv.Type().Underlying().(*types.Map); !isMap {
+								continue
+							}
+							if k, isK := rv.(*ssa.Const); isK && k.IsNil() {
+								continue
+							}
+							if _, fresh := rv.(*ssa.MakeMap); !fresh {
+								ok = false
+							}
+						}
 					}
 				default:
 					ok = false
